@@ -69,6 +69,10 @@ pub struct Backend {
     pub key_roundtrip: fn(&str, &[u8]) -> R<Vec<u8>>,
     /// LocalKey::from([u8;32]) -> bytes
     pub local_from_array: fn([u8; 32]) -> R<Vec<u8>>,
+    /// parse two key-id strings of a kind ("local" | "public" | "secret"): (a == b, a.cmp(b) as -1/0/1, hash(a) == hash(b), a.as_bytes(), b.as_bytes())
+    pub keyid_cmp: fn(&str, &str, &str) -> R<(bool, i8, bool, Vec<u8>, Vec<u8>)>,
+    /// decode, clone, drop the original, re-encode the clone: by kind
+    pub key_clone: fn(&str, &[u8]) -> R<Vec<u8>>,
     /// the same with a payload type whose SUFFIX is "x": (purpose, sealing key bytes, m, f, a) -> token string
     pub seal_x: fn(&str, &[u8], &[u8], &[u8], &[u8]) -> R<String>,
     /// (purpose, unsealing key bytes, token, a) -> (claims, footer)
@@ -162,6 +166,44 @@ macro_rules! backend {
                     "secret" => key_bytes(&key_from::<$V, Secret>(b)?),
                     "pke-public" => key_bytes(&key_from::<$V, PkePublic>(b)?),
                     "pke-secret" => key_bytes(&key_from::<$V, PkeSecret>(b)?),
+                    other => panic!("kind {other}"),
+                })
+            })
+        }
+        fn keyid_cmp(kind: &str, a: &str, b: &str) -> R<(bool, i8, bool, Vec<u8>, Vec<u8>)> {
+            use paseto_core::paserk::KeyId;
+            use std::hash::{Hash, Hasher};
+            fn go<K: paseto_core::key::KeyType>(a: &str, b: &str) -> Result<(bool, i8, bool, Vec<u8>, Vec<u8>), PasetoError> {
+                let x = KeyId::<$V, K>::from_str(a)?;
+                let y = KeyId::<$V, K>::from_str(b)?;
+                let h = |k: &KeyId<$V, K>| {
+                    let mut s = std::collections::hash_map::DefaultHasher::new();
+                    k.hash(&mut s);
+                    s.finish()
+                };
+                let ord = match x.cmp(&y) { std::cmp::Ordering::Less => -1, std::cmp::Ordering::Equal => 0, std::cmp::Ordering::Greater => 1 };
+                if x.partial_cmp(&y) != Some(x.cmp(&y)) {
+                    return Err(PasetoError::ClaimsError);
+                }
+                Ok((x == y, ord, h(&x) == h(&y), x.as_bytes().to_vec(), y.as_bytes().to_vec()))
+            }
+            let kind = kind.to_string();
+            guard(|| match kind.as_str() {
+                "local" => go::<Local>(a, b),
+                "public" => go::<Public>(a, b),
+                _ => go::<Secret>(a, b),
+            })
+        }
+        fn key_clone(kind: &str, b: &[u8]) -> R<Vec<u8>> {
+            use paseto_core::version::{PkePublic, PkeSecret};
+            let kind = kind.to_string();
+            guard(|| {
+                Ok(match kind.as_str() {
+                    "local" => { let k = key_from::<$V, Local>(b)?; let c = k.clone(); drop(k); key_bytes(&c) }
+                    "public" => { let k = key_from::<$V, Public>(b)?; let c = k.clone(); drop(k); key_bytes(&c) }
+                    "secret" => { let k = key_from::<$V, Secret>(b)?; let c = k.clone(); drop(k); key_bytes(&c) }
+                    "pke-public" => { let k = key_from::<$V, PkePublic>(b)?; let c = k.clone(); drop(k); key_bytes(&c) }
+                    "pke-secret" => { let k = key_from::<$V, PkeSecret>(b)?; let c = k.clone(); drop(k); key_bytes(&c) }
                     other => panic!("kind {other}"),
                 })
             })
@@ -302,6 +344,8 @@ macro_rules! backend {
             public_of_secret,
             key_roundtrip,
             local_from_array,
+            keyid_cmp,
+            key_clone,
             seal_x,
             unseal_x,
             pie_wrap,
